@@ -24,6 +24,7 @@ PINNED = {  # hand-modelled code (Model/UniformPath.v, UniformTracer.v, LayeredP
 }
 PIN_FILE = os.path.join(ROOT, "harness", "pins", "C18.json")
 KF_DEGENERATE = "uniform-endpoint-on-boundary-degenerate-leg"
+KF_DEEP_LAYER = "layered-exponential-layer-below-z_uniform-loses-solutions"
 
 
 def gen_files(scratch):
@@ -561,6 +562,33 @@ def probe_split_uniform(ctx, cfg, cuts):
     return len(lsols)
 
 
+def _cut_bound(s, cuts):
+    """C01's cancellation bound of the shallow closed forms evaluated at every cut below z_uniform that the unsplit
+    solution s crosses (once per crossing)."""
+    from harness.props import c01
+    icep = c01.ice_params(None, default_of=type(s.ice).__name__)
+    zu = c01.z_uniform_of(icep)
+    zf, zt = float(s.from_point[2]), float(s.to_point[2])
+    em = U.fl(s.emitted_direction)
+    beta = c01.nprof(icep, zf) * math.hypot(em[0], em[1])
+    if beta <= 0.005 or beta >= icep["n0"]:
+        return np.zeros(3)
+    if s.direct:
+        spans = [(min(zf, zt), max(zf, zt))]
+    else:
+        ntop = c01.nprof(icep, icep["hi"])
+        zturn = icep["hi"] if beta <= ntop else math.log((icep["n0"] - beta) / icep["k"]) / icep["a"]
+        spans = [(zf, zturn), (zt, zturn)]
+    tot = 0.0
+    for c in cuts:
+        if c < zu:
+            for lo, hi in spans:
+                if lo <= c <= hi:
+                    tot += 2 * c01.log1_delta(icep, beta, c)      # the section below ends there, the one above starts there
+    A = math.sqrt(icep["n0"] ** 2 - beta * beta)
+    return tot / icep["a"] * np.array([beta / A, icep["n0"] / A, icep["n0"] ** 2 / (A * U.C0)])
+
+
 def probe_split_exponential(ctx, f, t, cuts):
     """AntarcticIce cut into layers vs SpecializedRayTracer (solver tolerance; cancellation regime excluded)."""
     from pyrex.ray_tracing import SpecializedRayTracer
@@ -571,8 +599,8 @@ def probe_split_exponential(ctx, f, t, cuts):
     layers[0]["above"] = 1.0      # a turn inside the top layer reflects off the surface with that layer's own index_above
     lcfg = {"ice": {"layers": layers, "above": 1.0, "below": None}, "from": f, "to": t, "max_reflections": 1}
 
-    def fail(what, **kw):
-        ctx.fail("split-exp:%s:%s" % (what.split(":")[0], key_cfg), "split of AntarcticIce at %r: %s; %s" % (cuts, what, key_cfg),
+    def fail(what, key=None, **kw):
+        ctx.fail(key or "split-exp:%s:%s" % (what.split(":")[0], key_cfg), "split of AntarcticIce at %r: %s; %s" % (cuts, what, key_cfg),
                  {"kind": "split_exp", "from": f, "to": t, "cuts": cuts, **kw})
     with np.errstate(all="ignore"):
         try:
@@ -581,19 +609,39 @@ def probe_split_exponential(ctx, f, t, cuts):
         except Exception as e:
             fail("raises: %r" % (e,))
             return 0
-        ld = [(float(s.path_length), float(s.tof), U.fl(s.emitted_direction), U.fl(s.received_direction), s.fresnel) for s in ls]
+        ld = [(float(s.path_length), float(s.tof), U.fl(s.emitted_direction), U.fl(s.received_direction), s.fresnel, U.cancellation_bound(s)) for s in ls]
         for k, s in enumerate(us):
             L, tof, em, rc = float(s.path_length), float(s.tof), U.fl(s.emitted_direction), U.fl(s.received_direction)
             uf = s.fresnel
             if math.hypot(em[0], em[1]) < 0.08 or math.hypot(rc[0], rc[1]) < 0.08:
                 continue      # near-vertical (beta < ~0.1): beta_tolerance regime of the analytic tracer, C01's domain
-            tolL, told = 1e-3 + 1e-6 * L, 1e-5
+            # C01's worst-case bound of the log_term_1 cancellation (open finding F10) of the unsplit solution and of the split
+            # candidates: on the length / time themselves and, through the launch angle, 2 x the radial bound
+            Bu = U.cancellation_bound(s)
+            # sections of the split path that end on a cut deeper than z_uniform evaluate the shallow closed form AT the cut
+            # (a layer's z_uniform is clipped into the layer): C01's bound of that evaluation
+            Bx = _cut_bound(s, cuts)
+            if not np.all(np.isfinite(Bx)):
+                if not [d for d in ld if abs(d[0] - L) <= 1e-3 + 1e-6 * L]:
+                    fail("lost", key=KF_DEEP_LAYER, solution=k, cuts=cuts)
+                ctx.extra["split_exp_skipped_cancellation_bound"] = ctx.extra.get("split_exp_skipped_cancellation_bound", 0) + 1
+                continue
+            Bu = Bu + Bx
+            Bl = max((float(d[5][1] + 2 * d[5][0]) for d in ld if np.all(np.isfinite(d[5]))), default=0.0)
+            Br = max((float(d[5][0]) for d in ld if np.all(np.isfinite(d[5]))), default=0.0)
+            if not np.all(np.isfinite(Bu)) or any(not np.all(np.isfinite(d[5])) for d in ld) or Bu[1] + 2 * Bu[0] + Bl > 0.05 * L:
+                ctx.extra["split_exp_skipped_cancellation_bound"] = ctx.extra.get("split_exp_skipped_cancellation_bound", 0) + 1
+                continue
+            cz = max(min(abs(em[2]), abs(rc[2])), 0.05)
+            cL = 1.01 * (Bu[1] + 2 * Bu[0] + Bl)
+            tolL, told = 1e-3 + 1e-6 * L + cL, 1e-5 + 4.0 * (Bu[0] + Br) / max(L, 1.0) / cz ** 3
             hit = [d for d in ld if abs(d[0] - L) <= tolL and U.vdiff(d[2], em) <= told and U.vdiff(d[3], rc) <= told]
             if not hit:
-                fail("missing: unsplit solution %d (length %r, emitted %r, received %r) not among split solutions %r" % (k, L, em, rc, [(d[0], d[2]) for d in ld]), solution=k)
+                fail("missing: unsplit solution %d (length %r, emitted %r, received %r) not among split solutions %r (tolerance %.3g m incl. cancellation bound %.3g; directions %.3g)" % (
+                    k, L, em, rc, [(d[0], d[2]) for d in ld], tolL, cL, told), solution=k)
                 continue
             d = hit[0]
-            if abs(d[1] - tof) > 1e-6 * tof + 1e-3 * 1.8 / U.C0:
+            if abs(d[1] - tof) > 1e-6 * tof + (1e-3 + cL) * 1.8 / U.C0:
                 fail("tof: unsplit solution %d tof %r, split %r" % (k, tof, d[1]), solution=k)
             if abs(complex(d[4][0]) - complex(uf[0])) > 1e-4 or abs(complex(d[4][1]) - complex(uf[1])) > 1e-4:
                 fail("transmission: unsplit solution %d Fresnel %r, split %r" % (k, uf, d[4]), solution=k)
@@ -619,16 +667,111 @@ def probes_split(ctx, scale):
             continue
         ctx.case(key=("split_uniform", json.dumps(cfg, sort_keys=True), tuple(sorted(cuts))), sample={"probe": "split_uniform", "cfg": cfg, "cuts": sorted(cuts)})
         n1 += probe_split_uniform(ctx, cfg, sorted(cuts))
-    for _ in range(ctx.n(8, 150) * scale):
-        z0, z1 = round(rng.uniform(-700, -5), 1), round(rng.uniform(-700, -5), 1)
+    from pyrex.ice_model import AntarcticIce
+    _ai = AntarcticIce()
+    zu = float(_ai.depth_with_index(_ai.n0 * 0.99999))          # z_uniform of the unsplit ice, as the tracer computes it
+    deep_cuts = [zu, zu + 1.0, zu - 1.0, -800.0, -1000.0, -1500.0]
+    # the open known finding (layer far below z_uniform loses the solutions), always evaluated
+    n2 += probe_split_exponential(ctx, [120.0, 0.0, -1453.8], [319.18062667736945, 292.2775936626647, -1897.0], [-1500.0])
+    # a cut at -800 m: every section arriving there from below ends exactly on its layer's (clipped) z_uniform
+    n2 += probe_split_exponential(ctx, [0.0, 0.0, -1000.0], [400.0, 0.0, -150.0], [-800.0])
+    n2 += probe_split_exponential(ctx, [400.0, 0.0, -150.0], [0.0, 0.0, -1000.0], [-800.0])
+    for it in range(ctx.n(14, 220) * scale):
+        deep = it % 2 == 1          # every second case: a cut at / around / below z_uniform with a ray that crosses it
+        if deep:
+            cuts = sorted({float(rng.choice(deep_cuts))} | ({-float(round(rng.uniform(10, 740), 0))} if rng.random() < 0.4 else set()))
+            zc = min(cuts)
+            za, zb = round(zc - rng.uniform(20, 500), 1), round(rng.uniform(-600, -5) if rng.random() < 0.7 else zc + rng.uniform(5, 60), 1)
+            z0, z1 = (za, zb) if rng.random() < 0.5 else (zb, za)      # upward and downward
+        else:
+            z0, z1 = round(rng.uniform(-700, -5), 1), round(rng.uniform(-700, -5), 1)
+            cuts = sorted({-float(round(rng.uniform(10, 740), 0)) for _ in range(rng.choice([1, 2]))})
         rho = rng.uniform(0.15, 2.0) * max(abs(z1 - z0), 60.0)
         az = rng.uniform(-math.pi, math.pi)
         ox, oy = rng.choice([0.0, 120.0]), rng.choice([0.0, -33.0])
         f, t = [ox, oy, z0], [ox + rho * math.cos(az), oy + rho * math.sin(az), z1]
-        cuts = sorted({-float(round(rng.uniform(10, 740), 0)) for _ in range(rng.choice([1, 2]))})
         ctx.case(key=("split_exp", tuple(f), tuple(t), tuple(cuts)), sample={"probe": "split_exp", "from": f, "to": t, "cuts": cuts})
         n2 += probe_split_exponential(ctx, f, t, cuts)
     ctx.extra["probe_split_solutions"] = {"uniform": n1, "exponential": n2}
+
+
+# ---------------------------------------------------------------------------- probes: histories on a LayeredIce object
+def _solution_summary(tr):
+    with np.errstate(all="ignore"):
+        out = []
+        for s in tr.solutions:
+            out.append((float(s.path_length), float(s.tof), U.fl(s.emitted_direction), U.fl(s.received_direction),
+                        [[U.fl(p.from_point), U.fl(p.to_point)] for p in s.paths]))
+    return out
+
+
+def probe_history(ctx, hist):
+    """read -> move a layer boundary (re-assign .layers, or edit the layers' valid_range in place) -> read, on ONE LayeredIce
+    object.  After the change a new tracer on that object must give exactly what a tracer on a freshly built LayeredIce with
+    the current layers gives, and every junction must lie on a CURRENT boundary with both sections inside their own layer."""
+    from pyrex.custom.layered_ice import LayeredIce, LayeredRayTracer
+    cls = type("LayeredRayTracerH", (LayeredRayTracer,), {"max_reflections": hist["max_reflections"]})
+    key = "history:%s" % json.dumps(hist, sort_keys=True)
+
+    def fail(what):
+        ctx.fail(key, "LayeredIce history (%s): %s; %s" % (hist["mode"], what, json.dumps(hist)), {"kind": "history", "hist": hist})
+    ice = U.mk_layered_ice(hist["before"])
+    with np.errstate(all="ignore"):
+        tr1 = cls(hist["from"], hist["to"], ice)
+        _ = tr1.solutions                                     # first read (boundaries, layers ...)
+        _ = ice.boundaries
+        new_layers = [U.mk_layer(l) for l in hist["after"]["layers"]]
+        if hist["mode"] == "reassign_layers":
+            ice.layers = list(sorted(new_layers, key=lambda x: -x.valid_range[0]))       # as the constructor orders them
+        else:
+            for obj, l in zip(ice.layers, hist["after"]["layers"]):
+                obj.valid_range = (l["lo"], l["hi"])
+        try:
+            got = _solution_summary(cls(hist["from"], hist["to"], ice))
+            want = _solution_summary(cls(hist["from"], hist["to"], U.mk_layered_ice(hist["after"])))
+        except Exception as e:
+            fail("raises %r after the change" % (e,))
+            return
+    cur = [hist["after"]["layers"][0]["hi"]] + [l["lo"] for l in hist["after"]["layers"]]
+    for si, sol in enumerate(got):
+        secs = sol[4]
+        for (a, b), (c, d) in zip(secs[:-1], secs[1:]):
+            if b[2] not in cur:
+                fail("solution %d has a junction at z=%r, not a boundary of the current layers %r" % (si, b[2], cur))
+                return
+        for a, b in secs:
+            if not any(l["lo"] <= a[2] <= l["hi"] and l["lo"] <= b[2] <= l["hi"] for l in hist["after"]["layers"]):
+                fail("solution %d has a section from z=%r to z=%r that is not inside one current layer %r" % (si, a[2], b[2], cur))
+                return
+    if got != want:
+        fail("a tracer on the modified object gives %d solutions %r, a tracer on a fresh LayeredIce with the same layers %d solutions %r" % (
+            len(got), [(g[0], [x[1][2] for x in g[4]]) for g in got], len(want), [(g[0], [x[1][2] for x in g[4]]) for g in want]))
+
+
+def probes_history(ctx, scale):
+    rng = ctx.rng
+    fixed = {"mode": "reassign_layers", "max_reflections": 1, "from": [0.0, 0.0, -900.0], "to": [350.0, 120.0, -100.0],
+             "before": {"layers": [{"kind": "uniform", "n": 1.4, "lo": -300.0, "hi": 0.0, "above": None, "below": None},
+                                   {"kind": "uniform", "n": 1.7, "lo": -2000.0, "hi": -300.0, "above": None, "below": None}], "above": 1.0, "below": None},
+             "after": {"layers": [{"kind": "uniform", "n": 1.4, "lo": -700.0, "hi": 0.0, "above": None, "below": None},
+                                  {"kind": "uniform", "n": 1.7, "lo": -2000.0, "hi": -700.0, "above": None, "below": None}], "above": 1.0, "below": None}}
+    probe_history(ctx, fixed)
+    probe_history(ctx, {**fixed, "mode": "edit_valid_range"})
+    for _ in range(ctx.n(10, 200) * scale):
+        ice = rand_stack(rng, kinds=("uniform",) if rng.random() < 0.7 else ("uniform", "uniform", "antarctic"))
+        if len(ice["layers"]) < 2:
+            continue
+        after = json.loads(json.dumps(ice))
+        j = rng.randrange(len(ice["layers"]) - 1)              # move the boundary between layers j and j+1
+        hi, lo = after["layers"][j]["hi"], after["layers"][j + 1]["lo"]
+        newb = float(round(rng.uniform(lo + 0.05 * (hi - lo), hi - 0.05 * (hi - lo)), 1))
+        after["layers"][j]["lo"] = newb
+        after["layers"][j + 1]["hi"] = newb
+        cfg = rand_layered_cfg(rng, ice=after)
+        hist = {"mode": rng.choice(["reassign_layers", "edit_valid_range"]), "max_reflections": cfg["max_reflections"],
+                "from": cfg["from"], "to": cfg["to"], "before": ice, "after": after}
+        ctx.case(key=("history", json.dumps(hist, sort_keys=True)), sample={"probe": "history", "hist": hist})
+        probe_history(ctx, hist)
 
 
 # ---------------------------------------------------------------------------- entry points
@@ -676,6 +819,7 @@ def run(ctx):
     probes_uniform(ctx, scale)
     probes_layered(ctx, scale)
     probes_split(ctx, scale)
+    probes_history(ctx, scale)
 
 
 def replay(ctx, obj):
@@ -710,6 +854,11 @@ def replay(ctx, obj):
         probe_split_exponential(ctx, obj["from"], obj["to"], obj["cuts"])
         for f in ctx.failures:
             print("FAIL:", f["what"][:800])
+    elif k == "history":
+        probe_history(ctx, obj["hist"])
+        for f in ctx.failures:
+            print("FAIL:", f["what"][:1200])
+        print("(no failure: the modified object and a fresh object agree)" if not ctx.failures else "")
     elif k == "build_path":
         print("implementation:", obj["impl"], "\nmodel:", obj["model"])
     return 1
